@@ -16,7 +16,7 @@ RULE = (
     "Hypothesis worlds (multigraphs <= 5 vertices / <= 8 links of 6 classes, a universe with a law set carrying an "
     "edge whitelist) x caching on/off.  For each world the complete matrix (exchange point x mutation) is "
     "enumerated.  Exchange points OUT: Vertex.links, Link.vertices, Universe.vertices, BaseObject.universes, "
-    "UniverseLaws.edge_whitelist (outer and inner mapping), neighbors() (cache miss and cache hit), find_links(), "
+    "UniverseLaws.edge_whitelist (outer and inner mapping), neighbors() (cache-filling call right after an invalidation, and cache hit), find_links(), "
     "bft / dft_recursive / dft_iterative results, unlink(destroy=False) result.  Exchange points IN: Vertex(links=, "
     "universes=, attributes=), Link subclass(vertices=), Universe(vertices=), UniverseLaws(edge_whitelist=) outer "
     "and inner dict, load_adj_dict input and rows, load_adj_matrix matrix, rows and side array.  Mutations: "
@@ -37,7 +37,7 @@ TECHNIQUE = "metamorphic PBT: mutate every exchanged container in every way, re-
 
 def budget(tier):
     if tier == "quick":
-        return dict(shards=16, examples=50, time_s=55)
+        return dict(shards=16, examples=30, time_s=55)
     return dict(shards=16, examples=600, time_s=850)
 
 
@@ -124,6 +124,10 @@ def out_points(W):
         ("edge_whitelist", lambda: W.laws.edge_whitelist),
         ("edge_whitelist.inner", lambda: next(iter(W.laws.edge_whitelist.values()))),
         ("neighbors()", lambda: helpers.neighbors(a, 1, 1)),
+        # a genuine cache MISS: invalidate a's cache by a structural no-op (re-adding a link it already has),
+        # then query - the list returned by the cache-FILLING call must not be the cached object either
+        ("neighbors()after-invalidation", lambda: (a.add_to_link(a.links[0]) if a.links else None, helpers.neighbors(a, 1, 1))[1]),
+        ("neighbors(filter)after-invalidation", lambda: (b.add_to_link(b.links[-1]) if b.links else None, helpers.neighbors(b, 2, 1, battery.f_accept))[1]),
         ("neighbors()second-call", lambda: (helpers.neighbors(a, 1, 1), helpers.neighbors(a, 1, 1))[1]),
         ("neighbors(filter)", lambda: helpers.neighbors(a, 0, 1, battery.f_accept)),
         ("neighbors(filter)second-call", lambda: (helpers.neighbors(b, 2, 1, battery.f_accept), helpers.neighbors(b, 2, 1, battery.f_accept))[1]),
